@@ -87,6 +87,18 @@ Fixpoint join (sep : str) (parts : list str) : str :=
   | p :: r => p ++ sep ++ join sep r
   end.
 
+(* s.split(c) for a single separator character *)
+Fixpoint split_on (c : byte) (s : str) : list str :=
+  match s with
+  | [] => [[]]
+  | x :: r =>
+      if byte_eqb x c then [] :: split_on c r
+      else match split_on c r with
+           | h :: t => (x :: h) :: t
+           | [] => [[x]]
+           end
+  end.
+
 (* every line terminated by "\n" *)
 Fixpoint unlines (ls : list str) : str :=
   match ls with
@@ -296,3 +308,34 @@ Lemma takewhile_dropwhile p s : takewhile p s ++ dropwhile p s = s.
 Proof. induction s as [|x s IH]; [reflexivity|]. cbn. destruct (p x); [cbn; f_equal; exact IH|reflexivity]. Qed.
 Lemma takewhile_idem p s : takewhile p (takewhile p s) = takewhile p s.
 Proof. apply takewhile_all. apply takewhile_forallb. Qed.
+
+(* split / join *)
+Lemma split_on_no c s : no_byte c s = true -> split_on c s = [s].
+Proof.
+  induction s as [|x s IH]; [reflexivity|]. cbn [no_byte forallb]. intros H. apply andb_prop in H. destruct H as [Hx Hs].
+  apply negb_true_iff in Hx. cbn [split_on]. rewrite Hx. rewrite (IH Hs). reflexivity.
+Qed.
+Lemma split_on_app c a r : no_byte c a = true -> split_on c (a ++ c :: r) = a :: split_on c r.
+Proof.
+  induction a as [|x a IH]; intros H.
+  - cbn. rewrite byte_eqb_refl. reflexivity.
+  - cbn [no_byte forallb] in H. apply andb_prop in H. destruct H as [Hx Ha]. apply negb_true_iff in Hx.
+    cbn [app split_on]. rewrite Hx. rewrite (IH Ha). reflexivity.
+Qed.
+Lemma split_join c cols : cols <> [] -> forallb (no_byte c) cols = true -> split_on c (join [c] cols) = cols.
+Proof.
+  induction cols as [|a cols IH]; [contradiction|]. intros _ H. cbn [forallb] in H. apply andb_prop in H. destruct H as [Ha Hc].
+  destruct cols as [|b cols].
+  - cbn [join]. apply split_on_no. exact Ha.
+  - change (join [c] (a :: b :: cols)) with (a ++ [c] ++ join [c] (b :: cols)). cbn [app].
+    rewrite (split_on_app c a _ Ha). rewrite IH; [reflexivity|discriminate|exact Hc].
+Qed.
+Lemma join_cons sep a b cols : join sep (a :: b :: cols) = a ++ sep ++ join sep (b :: cols).
+Proof. reflexivity. Qed.
+Lemma join_snoc sep cols l : cols <> [] -> join sep (cols ++ [l]) = join sep cols ++ sep ++ l.
+Proof.
+  induction cols as [|a cols IH]; [contradiction|]. intros _. destruct cols as [|b cols].
+  - reflexivity.
+  - cbn [app]. rewrite join_cons. change (b :: cols ++ [l]) with ((b :: cols) ++ [l]).
+    rewrite IH by discriminate. rewrite join_cons. rewrite <- !app_assoc. reflexivity.
+Qed.
